@@ -40,7 +40,8 @@ claim("C13", RUN + "Ghost polled/aborted flags asserted at every invocation, han
       "leave no further environment interaction before the exit.", TB + ENVN, "DESIGN.md C13")
 claim("C14", RUN + "emit's call-site contract is a ghost event automaton (retry* then one terminal event) checked at every real emit site; exit "
       "obligations tie the terminal event to the delivered stop reason and final failure; emit's body proved to feed both hooks identically.",
-      TB + ENVN + "Timeline collector/breaker events are covered by the policy-layer tasks where built.", "DESIGN.md C14")
+      TB + ENVN + "Timeline collector proved separately (one timeline event per emitted event whatever on_metric does); breaker events: every "
+      "transition/rejection the breaker contract announces is reported once, in order, with the state at announcement (policy-layer tasks).", "DESIGN.md C14")
 claim("C15", "Exception confinement and frame proved on the bodies of emit and _call_before_sleep[_async] (every hook outcome incl. raising), and every other "
       "result is proved uniformly in the hooks' behaviour because callers only see those contracts.", TB + ENVN, "DESIGN.md C15")
 claim("C16", RUN + "SA is the sleep-handler protocol itself (SLEEP/DEFER/ABORT cases, exactly-once counters), proved on both sleep actions; runner exits tie DEFER/ABORT to delivery.",
@@ -48,7 +49,8 @@ claim("C16", RUN + "SA is the sleep-handler protocol itself (SLEEP/DEFER/ABORT c
 claim("C18", "Envelope postconditions on the real closures over an extended-real float model (NaN/inf/range) with symbolic parameters, attempt numbers and random draws; "
       "_exp_cap's loop has an inductive invariant against the exact product.", TB + "A1 (rounding ignored); g**n uninterpreted with witnessed overflow thresholds and multiplicativity instances.", "DESIGN.md C18")
 claim("C19", "Totality and decision-table postconditions over a tagged 'any built-in value' sort for attributes, arbitrary exception class and class name; args loops with invariants.",
-      TB + "str()/lower()/regex behind assumed contracts; optional-library classifiers only with the library absent.", "DESIGN.md C19")
+      TB + "str() raises exactly on ints beyond CPython's 4300-digit limit (finding F11), lower()/regex/http.HTTPStatus behind assumed contracts; "
+      "optional-library classifiers only with the library absent.", "DESIGN.md C19")
 claim("C20", "Totality and value postconditions of the Retry-After parser chain with assumed-and-witnessed stdlib contracts; honouring proved on retry_after_or.",
       TB + "Header containers raise only Exception subclasses; hint + jitter within float range.", "DESIGN.md C20")
 POL = ("Policy/AsyncPolicy.call/execute (with and without retry, with and without breaker) are executed symbolically for every way the admitted "
@@ -59,10 +61,10 @@ claim("C08", POL + "Exit obligation on every path: admitted => the breaker was t
       TB + "Async cancellation modelled as the awaited operation raising CancelledError at its await point (the only suspension points).", "DESIGN.md C08")
 claim("C09", POL + "Ghost record log: exactly one record per admitted call, kind/class determined by the final outcome; none for unadmitted calls "
       "(finding F7 for the pre-flight abort path).", TB, "DESIGN.md C09")
-claim("C12", "Forwarding lemmas for every sugar entry point (recording-contract targets, identity of every forwarded parameter, AST audit of the "
-      "constructors); sync~async by aligned co-execution of the real twins under the same decisions and fresh-symbol numbering (runners, sleep "
-      "actions) and by the path product (Policy~AsyncPolicy); call~execute by the path product with the delivery relation at policy level "
+claim("C12", "Forwarding lemmas for every sugar entry point (recording-contract targets, identity of every forwarded parameter; constructors, "
+      "from_config and the @retry decorator executed symbolically); sync~async by guided co-execution of the real twins (B runs under A's path "
+      "condition and environment choices, same fresh-symbol numbering: runners, sleep actions) and by the path product (Policy~AsyncPolicy); call~execute by the path product with the delivery relation at policy level "
       "(quick) and at runner level (thorough tier, ~15 min).",
       TB + ENVN + "Async-only behaviours (cancellation injected at an await, awaitable-returning callbacks) are switched off in the twin "
       "comparison; agreement when observability hooks raise is delegated to C15; library-created objects are identified by creation site.",
-      "DESIGN.md A.1", "relational contracts: forwarding lemmas + aligned co-execution / path product of the real twins")
+      "DESIGN.md A.1", "relational contracts: forwarding lemmas + guided co-execution / path product of the real twins")
